@@ -27,13 +27,15 @@ func LiveMsg(r *mon.Rand, kind int, bufSize int) []byte {
 	case 11:
 		// total length in [2, bufSize], biased to the boundaries
 		n := 2 + r.Intn(12)
-		switch r.Intn(5) {
+		switch r.Intn(6) {
 		case 0:
 			n = bufSize
 		case 1:
 			n = bufSize - 1
 		case 2:
 			n = 2
+		case 3: // mid-size dumps
+			n = 100 + r.Intn(900)
 		}
 		if n > bufSize {
 			n = bufSize
